@@ -210,6 +210,8 @@ def check(ctx):
     ctx.extra_cov["boolops"] = nbool
     if nif < 150:
         raise AnalysisError(f"only {nif} if-statements examined; floor is 150")
+    rewriter_rejects(ctx, repo)
+    inplace_on_arguments(ctx, repo)
     # effects of producing the array form
     R.rule_E1(ctx, repo, entries=["vectorization.make_vectorizable", "vectorization.make_vectorizable_source"])
     R.rule_E4(ctx, repo)
@@ -230,3 +232,72 @@ def check(ctx):
 
 def _opstr(op):
     return {ast.Add: "+", ast.Sub: "-", ast.Mult: "*", ast.Div: "/"}.get(type(op), "?")
+
+
+def rewriter_rejects(ctx, repo):
+    """RJ: the if-translation uses element [0] of the body and of the else block; it may complete (return a
+    call) only when each block has at most one statement - otherwise the remaining statements are dropped
+    silently.  Decided on the dominating conditions of every completing return, for block sizes 0..2."""
+    from staticlib.guards import Dominance, eval_sized
+
+    ctx.rule("RJ", "the if-to-where translation completes only for blocks of one statement: every path to a returned call is infeasible when the body or the else block has two statements (the rewriter must fail loudly, not drop statements)")
+    vec = repo.module("vectorization.py")
+    fn = find_function(vec, "_if_to_call", "anchor named in the property")
+    node = fn.args.args[0].arg
+    dom = Dominance(fn)
+    rets = [n for n in walk_own(fn) if isinstance(n, ast.Return) and n.value is not None]
+    if not rets:
+        raise AnalysisError("_if_to_call returns nothing; RJ needs a re-read")
+    uses_first = {blk: any(isinstance(x, ast.Subscript) and ast.unparse(x.value) == f"{node}.{blk}" and ast.unparse(x.slice) == "0" for x in ast.walk(fn)) for blk in ("body", "orelse")}
+    for nb, no in ((2, 0), (2, 1), (1, 2), (2, 2)):
+        if (nb > 1 and not uses_first["body"]) and (no > 1 and not uses_first["orelse"]):
+            continue
+        sizes = {f"{node}.body": nb, f"{node}.orelse": no}
+        for r in rets:
+            feasible = True
+            for t, pol in dom.of(r):
+                v = eval_sized(t, sizes)
+                if v is not None and v != pol:
+                    feasible = False
+            ctx.ob("RJ", ok=not feasible, distinct=(nb, no, r.lineno))
+            if feasible:
+                ctx.violation("RJ", f"_if_to_call|body={nb}|orelse={no}", vec.loc(r) + " _if_to_call", f"an if-statement with {nb} statement(s) in its body and {no} in its else block reaches `{ast.unparse(r)}`: only the first statement of each block is translated, the others are dropped without an error")
+    ctx.floor("RJ", 4)
+
+
+def inplace_on_arguments(ctx, repo):
+    """S5: `x op= v` where x is (an alias of) an argument: on scalars it rebinds a local, in the array form numpy
+    updates the caller's column in place - the inputs of later rules change."""
+    ctx.rule("S5", "no augmented assignment to an argument or to a name bound directly to an argument (`out = arg; out += v`): the array form would modify the caller's column in place")
+    n = 0
+    for r in repo.rules:
+        if r.skip_vec:
+            continue
+        params = set(r.argnames)
+        alias = {}  # local -> argument it may still be identical to (flow-insensitive over plain copies)
+        for st in ast.walk(r.node):
+            if isinstance(st, ast.Assign) and len(st.targets) == 1 and isinstance(st.targets[0], ast.Name):
+                v = st.value
+                cands = [v] if isinstance(v, ast.Name) else ([v.body, v.orelse] if isinstance(v, ast.IfExp) else [])
+                for c in cands:
+                    if isinstance(c, ast.Name) and (c.id in params or c.id in alias) and not c.id.endswith("_params"):
+                        alias.setdefault(st.targets[0].id, set()).add(c.id)
+        for st in ast.walk(r.node):
+            if isinstance(st, ast.AugAssign) and isinstance(st.target, ast.Name):
+                n += 1
+                t = st.target.id
+                hit = t in params or t in alias
+                if hit and t in alias:
+                    # the alias is harmless if every binding of t that reaches this statement is a fresh value:
+                    # syntactic check - t has another, later plain assignment from an expression before this line
+                    binds = [a for a in ast.walk(r.node) if isinstance(a, (ast.Assign, ast.AugAssign)) and (a.targets[0] if isinstance(a, ast.Assign) else a.target) is not None
+                             and isinstance((a.targets[0] if isinstance(a, ast.Assign) else a.target), ast.Name) and (a.targets[0] if isinstance(a, ast.Assign) else a.target).id == t and a.lineno < st.lineno]
+                    last = max(binds, key=lambda a: a.lineno) if binds else None
+                    if last is not None and not (isinstance(last, ast.Assign) and isinstance(last.value, (ast.Name, ast.IfExp))):
+                        hit = False  # the value was re-computed (x = arg; x = x + 1; x += ...) before this update
+                ctx.ob("S5", ok=not hit, distinct=(r.qual, st.lineno))
+                if hit:
+                    src = t if t in params else sorted(alias[t])[0]
+                    ctx.violation("S5", f"{r.qual}|{ast.unparse(st)[:60]}", f"src/_gettsim/{r.mod.rel}:{st.lineno} {r.name}", f"`{ast.unparse(st)[:70]}` updates `{t}`, which is the argument `{src}` itself: harmless on scalars, but the array form (`numpy` in-place operator) overwrites the caller's `{src}` column, so later rules and repeated calls see changed inputs")
+    ctx.ob("S5", ok=True, distinct="scan", n=1)
+    ctx.extra_cov["augmented_assignments"] = n
